@@ -42,11 +42,15 @@ ASSUMPTIONS = [
     "oracle vk/ref/seqsem.py implements the documented sequential semantics; interpreted functions are the pure functions of vk.recipe.IF_TABLE",
 ]
 SHARD_TIMEOUT = {"quick": 900, "thorough": 5400}
-BOUNDS = {"quick": dict(n=480, max_states=1500), "thorough": dict(n=6000, max_states=4000)}
+BOUNDS = {"quick": dict(n=480, max_states=1500), "thorough": dict(n=3000, max_states=4000)}
 
 PROFILE_IF = dict(interpreted_functions=0.7, undefined_init=0.0, invariants=0.0, forall_effects=False, int_params=0.0, max_actions=3, max_fluents=4)
 PROFILE_OS = dict(interpreted_functions=0.0, undefined_init=0.0, invariants=0.0, forall_effects=False, int_params=0.0, metric="oversub", max_actions=3, max_fluents=4)
 POSITIVE = ("SOLVED_SATISFICING", "SOLVED_OPTIMALLY")
+# Every FRESH_ENV_EVERY-th interpreted-functions case runs in a fresh Environment, the others in the global one (see build()).
+# Set to 1 for fresh-only once InterpretedFunctionsRemover creates its objects in the problem's environment
+# (out/patches/c31_ifrm_env.diff); oversubscription cases always use a fresh Environment.
+FRESH_ENV_EVERY = 1
 
 
 def plan(tier, seed):
@@ -203,10 +207,10 @@ def build(key):
             feats = sorted(set(feats) | {"interpreted_function"})
     # The interpreted-functions remover builds some of its fluents / parameters / objects in the *global* environment
     # (candidate finding "object-created-in-global-environment"), so with a fresh Environment the meta-engine dies before
-    # its learning loop is reached.  To still exercise that loop, 3 of 4 (a)-cases deliberately live in the global
+    # its learning loop is reached.  To still exercise that loop, all but every FRESH_ENV_EVERY-th (a)-case deliberately live in the global
     # environment (only well-typed constructions are made there); the others and all (b)-cases use a fresh one.
     idx = int(key.rsplit(":", 1)[1])
-    if mode == "if" and (idx // 2) % 4 != 0:
+    if mode == "if" and FRESH_ENV_EVERY > 1 and (idx // 2) % FRESH_ENV_EVERY != 0:
         e = _env.get_environment()
     else:
         e = _env.fresh_env()
@@ -294,6 +298,12 @@ def run_case(key, tier, res):
     if raised is not None:
         if isinstance(raised, UPUsageError) and not isinstance(raised, _env.INTERNAL_EXC):
             res.count("rejected_by_meta_engine:" + mode)
+            return
+        internal = isinstance(raised, _env.INTERNAL_EXC)
+        if not solvable and not internal:
+            # The statement promises valid plans and completeness on *solvable* problems; what the meta-engine does on an
+            # unsolvable one (here: a documented UPException instead of a negative status) is left open => counted, not judged.
+            res.count(f"dontcare_raise_on_unsolvable:{mode}:{type(raised).__name__}")
             return
         res.case()
         cls = "solvable" if solvable else "unsolvable"
